@@ -7,6 +7,9 @@ file controller and index persistence of one domain database.
     GcNotAcquired, S6 AfterClose on the code as written; S7 NoBlockWhenAllIdle /
     NoStuckWaiter on the repaired model (FixStarve) and, as written, shown to fail (the
     named deviation Dev_ReaderStarvedByIdleSmallWriter must stay visible).
+    FileControllerConc.tla (tools/props/_fcconc.py, shared with C09) is the concurrent model of
+    garbage collection vs a writer opening the same file: default design holds exhaustively, each of
+    Dev_PrepareNoRecheck / Dev_ReopenOutsideLock alone violates PointersAddressOwnBytes.
  2. FileControllerGen.tla emits bounded-exhaustive behaviours (from the empty pool and after
     pool-building prefixes) and simulated deeper ones; TestVerifFCReplay steps a real
     domain.DB / fileController on a handle-counting MemFS through each of them and judges
@@ -17,6 +20,7 @@ import json
 import os
 
 import vlib
+import _fcconc
 
 AREA = "domain"
 MOD = "cesium"
@@ -287,6 +291,13 @@ def run(ctx):
         r = mc(name, mc_cfg(consts(2, 2, 2, 3, 2, 2), inv, props=""), expect_violation=True)
         if r.violated != inv:
             ctx.notes.append("design: Dev_ReaderStarvedByIdleSmallWriter not reachable as written (%s: violated=%s)" % (inv, r.violated))
+
+    # FileControllerConc.tla: the interleaving argument for the window the pool model treats as atomic
+    # (garbage collection of a file vs a writer opening it); default holds, each deviation reproduces
+    cst, ctr, cruns = _fcconc.design_runs(ctx)
+    states += cst
+    trans += ctr
+    design.extend(cruns)
 
     # 2. behaviours -> real code
     samples = []
